@@ -202,6 +202,39 @@ pub fn run(ctx: &Ctx) -> Result<Evidence, String> {
             }
         }
     }
+    // long member names drawn from a hostile alphabet (every adjacency of quotes, backslashes,
+    // controls, brackets and multi-byte characters, at every offset, 1..90 characters) reached by
+    // wildcard, descendant and filter steps
+    {
+        let alphabet: Vec<char> = "][\\'\"/~ .a0\u{e9}\u{1f600}\t\n\u{1}\u{1f}\u{7f}\u{0}$@*-_%x".chars().collect();
+        for _ in 0..ctx.tier.pick(80, 2500) {
+            let mut members: Vec<(String, J)> = vec![];
+            for k in 0..24 {
+                let len = 1 + rng.below(if k % 4 == 0 { 90 } else { 40 }) as usize;
+                let name: String = (0..len).map(|_| *rng.pick(&alphabet)).collect();
+                if members.iter().any(|(n, _)| *n == name) {
+                    continue;
+                }
+                let inner_len = 20 + rng.below(50) as usize;
+                let inner: String = (0..inner_len).map(|_| *rng.pick(&alphabet)).collect();
+                members.push((name, if k % 3 == 0 { J::Obj(vec![(inner, J::int(k))]) } else { J::Arr(vec![J::int(k), J::Null]) }));
+            }
+            // dense in control characters, short (rendering several times longer than the name)
+            for n in [9usize, 11, 16, 24] {
+                let name: String = (0..n).map(|i| ['\u{1}', '\u{b}', '\u{1f}', '\u{0}', '\u{e}'][(i + n) % 5]).collect();
+                if !members.iter().any(|(m, _)| *m == name) {
+                    members.push((name, J::int(n as i64)));
+                }
+            }
+            let di = bdocs.len();
+            bdocs.push(Doc::new(&J::Obj(members)));
+            for q in ["$.*", "$..*", "$[?@]", "$.*.*", "$..[0]"] {
+                if let Some(ast) = analyze(q).ast {
+                    bcases.push((di, Route { kind: "long-hostile-names", query: ast, spelling: Spelling::canonical() }));
+                }
+            }
+        }
+    }
     let n_bound = bcases.len();
     // random part: random queries over random documents with hostile keys
     let mut dcfg = gen::DocCfg::default();
